@@ -115,6 +115,33 @@ CHECKS = {
              'value, rest of the object, __eq__, freshness of defaults, second XML.',
         note='Trusted: value classes are representatives of each simple type (C18 decides scalars); canonical form from verif/mdibharness.canon; explicit None on optional members with default/list is not judged for RT2.',
         design_ref='6/C05'),
+    'C12': dict(
+        technique='TLA+ spec Defaults.tla (heap model: New/ParseAbsent/ParsePresent/DeepCopy/MkCopy/UpdateFrom/MutateNested/Drop over 3 instances) model-checked by TLC incl. defect switches; histories replayed on every reflected (class, member) pair; TLC trace validation (DefaultsTrace.tla)',
+        text='TLC checks NoSharing/DefaultStable/Isolated/DefaultUntouched exhaustively (and that the two seeded defect switches violate them); all histories up to depth 3-5 are '
+             'replayed on every class member with an object- or list-valued default found by reflection (330 pairs); canonical value and object identity of every live and of a fresh '
+             'instance after every step are judged by TLC.',
+        note='Trusted: reflection table kind->abstract value; identical abstract traces of different pairs judged once.',
+        design_ref='6/C12'),
+    'C17': dict(
+        technique='TLA+ specs HttpFraming.tla (chunked coding over byte values, codec and negotiation reference) and ChunkReader.tla (operational reader with liveness) checked by TLC; every case executed on the real mk_chunks / HTTPReader / CompressionHandler / SoapClient(+Async) / request handler; judged by TLC (HttpFramingTrace.tla)',
+        text='TLC enumerates bodies x chunk sizes, all byte strings over a framing alphabet up to length 4-6, damage classes of coded bodies and Accept-Encoding headers with q-values; '
+             'ChunkReader.tla refines the reference parser and terminates under fairness. Real readers are driven with a read-count watchdog (a spin is observed, not suffered); '
+             'TLC judges losslessness, valid HTTP/1.1 framing, termination, negotiation (only acceptable q>0 and locally enabled codings) and rejection of corrupt/unsupported codings.',
+        note='Trusted: in-memory sockets/connections; multi-megabyte bodies compared in python against the TLC-checked mirror parser.',
+        design_ref='6/C17'),
+    'C19': dict(
+        technique='TLA+ spec Tls.tla (configuration x phase model with Advertised/Connects reference operators, laws as invariants) enumerated exhaustively by TLC; every configuration executed on a real provider/consumer pair; recorded URLs and connections judged by TLC (TlsTrace.tla)',
+        text='Full product of provider TLS x consumer none/optional/enforced x shared/own servers x alternative host name x downgrade environment (x manager flavour in thorough) through the phases '
+             'metadata, hosted+WSDL, subscribe, probe, notification, renew/status, operation, unsubscribe, stop; every URL in every serialised message and every client connection (context, netloc) '
+             'is recorded and judged; certloader contexts are checked by attributes and by an in-memory mutual handshake.',
+        note='Trusted: loop-back transport (no real handshake between the parties); real HttpServerThreadBase with the listening socket replaced.',
+        design_ref='6/C19'),
+    'C20': dict(
+        technique='TLA+ spec Query.tla (SelMdState/SelCtx and localized-text filter semantics with laws as invariants) enumerated by TLC; every request sent through the real consumer service clients to a real provider; results judged by TLC (QueryTrace.tla)',
+        text='TLC enumerates every request of <= 3 handles (descriptor, context state, MDS, unknown, duplicate) x MDIB variants and filter combinations x text stores; the harness builds each variant '
+             'on a real provider, sends every request over the loop-back transport and TLC judges only-selected / all-selected / at-most-once and the text constraints.',
+        note='Trusted: abstraction of the real MDIB/text store read back from the provider tables.',
+        design_ref='6/C20'),
 }
 
 NOT_YET = 'check not built yet in this round (see DESIGN.md section 10 build order); no claim made'
